@@ -209,6 +209,10 @@ func vParam(name string, def int) int {
 
 func vIdealEq(a, b []byte) bool { return bytes.Equal(a, b) }
 
+// vNonceReuse natively: not observable (the harnesses pair it with an
+// observable condition).
+func vNonceReuse() bool { return false }
+
 // vMentions natively: does b contain a run of >= 8 bytes of secret?
 func vMentions(b, secret []byte) bool {
 	if len(secret) < 8 {
